@@ -4425,4 +4425,251 @@ theorem arff_sparse_table' (q : Nat) (hq : q = SQ ∨ q = DQ) (also : Nat → Bo
         simp [Function.comp_def]
       rw [hencs, hnames, sparseRows_written _ _ _ rows hrows]
 
+/-! ## translator tie: the model's literal tables as lists -/
+
+theorem dropWhile_congr' {α} (p q : α → Bool) (h : ∀ x, p x = q x) (l : List α) : l.dropWhile p = l.dropWhile q := by
+  have : p = q := funext h
+  rw [this]
+
+theorem compact_eq_filter (t : Text) : compact t = t.filter (fun c => !([32, 9, 10, 13, 11, 12] : List Nat).contains c) := by
+  unfold compact
+  congr 1
+  funext c
+  simp [List.contains_cons]
+  simp only [Bool.and_assoc]
+  rfl
+
+theorem rstripNl_eq_list (t : Text) : rstripNl t = (t.reverse.dropWhile (fun c => ([13, 10] : List Nat).contains c)).reverse := by
+  unfold rstripNl
+  rw [dropWhile_congr' (fun c => c == CR || c == LF) (fun c => ([13, 10] : List Nat).contains c)
+    (fun c => by simp only [List.contains_cons, List.contains_nil, Bool.or_false, CR, LF])]
+
+theorem stripBraces_eq_list (t : Text) :
+    stripBraces t = ((t.dropWhile (fun c => ([125, 32, 123] : List Nat).contains c)).reverse.dropWhile (fun c => ([125, 32, 123] : List Nat).contains c)).reverse := by
+  unfold stripBraces
+  have h : ∀ c : Nat, (c == RBRACE || c == 32 || c == LBRACE) = ([125, 32, 123] : List Nat).contains c := by
+    intro c; simp only [List.contains_cons, List.contains_nil, Bool.or_false, RBRACE, LBRACE, Bool.or_assoc]
+  have e : (fun c : Nat => c == RBRACE || c == 32 || c == LBRACE) = (fun c => ([125, 32, 123] : List Nat).contains c) := funext h
+  simp only [e]
+
+/-! ## G. plain lines: fast path = fallback parser -/
+
+theorem plainTok_parts (v : Text) (h : plainTok v = true) :
+    (∃ c t, v = c :: t ∧ isPySpace c = false) ∧
+    (∀ c ∈ v, c ≠ COMMA ∧ c ≠ SQ ∧ c ≠ DQ ∧ c ≠ BS ∧ isNl c = false) ∧ bareOk v = true := by
+  unfold plainTok at h
+  simp only [Bool.and_eq_true] at h
+  obtain ⟨hb, hh⟩ := h
+  refine ⟨?_, ?_, hb⟩
+  · cases v with
+    | nil => simp at hh
+    | cons c t => exact ⟨c, t, rfl, by simpa using hh⟩
+  · intro c hc
+    unfold bareOk at hb
+    simp only [Bool.and_eq_true] at hb
+    have := List.all_eq_true.mp hb.1 c hc
+    simp only [Bool.not_eq_true', Bool.or_eq_false_iff, beq_eq_false_iff_ne] at this
+    exact ⟨this.1.1.1.1, this.1.1.1.2, this.1.1.2, this.1.2, this.2⟩
+
+theorem plainTok_write (v : Text) (h : plainTok v = true) : arffWriteTok SQ (fun _ => false) (false, v) = v := by
+  have := (plainTok_parts v h).2.2
+  simp [arffWriteTok, this]
+
+theorem replicate_blank_ne_comma (pad : Nat) : ∀ c ∈ List.replicate pad 32, c ≠ COMMA := by
+  intro c hc
+  rw [List.mem_replicate] at hc
+  rw [hc.2]; decide
+
+theorem splitOnGo_plain (pad : Nat) (v0 : Text) (r : List Text) (cur : Text) (h : ∀ v ∈ v0 :: r, plainTok v = true) :
+    splitOnGo COMMA cur (arffWriteRow SQ (fun _ => false) pad ((v0 :: r).map (fun v => (false, v)))) =
+      (cur ++ v0) :: r.map (fun v => List.replicate pad 32 ++ v) := by
+  induction r generalizing v0 cur with
+  | nil =>
+    have hv := h v0 (by simp)
+    have hc : ∀ c ∈ v0, c ≠ COMMA := fun c hc => ((plainTok_parts v0 hv).2.1 c hc).1
+    simp only [List.map_cons, List.map_nil, arffWriteRow, plainTok_write v0 hv]
+    have := splitOnGo_tok COMMA cur v0 [] hc
+    rw [List.append_nil] at this
+    rw [this]; rfl
+  | cons y xs ih =>
+    have hv := h v0 (by simp)
+    have hc : ∀ c ∈ v0, c ≠ COMMA := fun c hc => ((plainTok_parts v0 hv).2.1 c hc).1
+    simp only [List.map_cons, arffWriteRow, plainTok_write v0 hv]
+    rw [splitOnGo_tok COMMA cur v0 _ hc]
+    simp only [splitOnGo, if_true]
+    rw [splitOnGo_tok COMMA [] (List.replicate pad 32) _ (replicate_blank_ne_comma pad)]
+    have := ih y (List.replicate pad 32) (fun v hv' => h v (by simp at hv' ⊢; right; exact hv'))
+    simp only [List.map_cons, List.nil_append] at this ⊢
+    rw [this]
+
+theorem advLoop_plain (items : List (Text × Text))
+    (h : ∀ it ∈ items, (∀ c ∈ it.1, isPySpace c = true) ∧ plainTok it.2 = true) :
+    advLoop none (items.map (fun it => it.1 ++ it.2)) = .ok (items.map (·.2)) := by
+  induction items with
+  | nil => rfl
+  | cons it items ih =>
+    obtain ⟨hl, hv⟩ := h it (by simp)
+    obtain ⟨⟨c, t, hct, hcs⟩, hall, _⟩ := plainTok_parts it.2 hv
+    have hls : lstrip (it.1 ++ it.2) = it.2 := lstrip_lead it.1 it.2 hl (by
+      intro x hx; rw [hct] at hx; simp at hx; rw [← hx]; exact hcs)
+    have hq : isQuoteCh c = false := by
+      have := hall c (by rw [hct]; simp)
+      simp [isQuoteCh, this.2.1, this.2.2.1]
+    have hf : it.2.filter (· != BS) = it.2 := by
+      rw [List.filter_eq_self]
+      intro x hx
+      simpa using (hall x hx).2.2.2.1
+    have ih' := ih (fun x hx => h x (by simp [hx]))
+    simp only [List.map_cons, advLoop, hls]
+    rw [hct] at hf ⊢
+    simp only [hq, Bool.false_eq_true, if_false, ih', hf]
+
+theorem plainRow_split (pad : Nat) (vs : List Text) (hne : vs ≠ []) (h : ∀ v ∈ vs, plainTok v = true) :
+    advLoop none (splitOn COMMA (plainRowLine pad vs)) = .ok vs := by
+  cases vs with
+  | nil => exact absurd rfl hne
+  | cons v0 r =>
+    unfold splitOn plainRowLine
+    rw [splitOnGo_plain pad v0 r [] h]
+    have := advLoop_plain (([], v0) :: r.map (fun v => (List.replicate pad 32, v))) (by
+      intro it hit
+      simp only [List.mem_cons, List.mem_map] at hit
+      rcases hit with rfl | ⟨v, hv, rfl⟩
+      · exact ⟨by simp, h v0 (by simp)⟩
+      · refine ⟨?_, h v (by simp [hv])⟩
+        intro c hc
+        rw [List.mem_replicate] at hc
+        rw [hc.2]; decide)
+    simpa [List.map_map, Function.comp_def] using this
+
+theorem plainRow_arffRowOk (vs : List Text) (hne : vs ≠ []) (h : ∀ v ∈ vs, plainTok v = true) :
+    arffRowOk SQ (vs.map (fun v => (false, v))) = true := by
+  unfold arffRowOk
+  simp only [Bool.and_eq_true]
+  refine ⟨⟨by simpa using hne, ?_⟩, ?_⟩
+  · rw [List.all_eq_true]
+    intro x hx
+    simp only [List.mem_map] at hx
+    obtain ⟨v, hv, rfl⟩ := hx
+    rw [List.all_eq_true]
+    intro c hc
+    have := (plainTok_parts v (h v hv)).2.1 c hc
+    simp [this.2.2.2.2, this.2.2.1, this.2.1]
+  · cases vs with
+    | nil => rfl
+    | cons v r =>
+      cases r with
+      | nil =>
+        obtain ⟨⟨c, t, hct, _⟩, _⟩ := plainTok_parts v (h v (by simp))
+        simp [hct]
+      | cons y ys => rfl
+
+theorem plain_paths_agree' (pad : Nat) (vs : List Text) (hne : vs ≠ []) (h : ∀ v ∈ vs, plainTok v = true) :
+    (arffLineStepF vs.length ALRF.init (plainRowLine pad vs)).map (·.2) = .ok vs ∧
+    (∀ s : ALRF, s.fallback = some COMMA → (arffAdvanced vs.length s (plainRowLine pad vs)).map (·.2) = .ok vs) ∧
+    advLoop none (splitOn COMMA (plainRowLine pad vs)) = .ok vs := by
+  refine ⟨?_, ?_, plainRow_split pad vs hne h⟩
+  · have hAL := arffLines_written SQ (Or.inl rfl) (fun _ => false) vs.length [(pad, vs.map (fun v => (false, v)))] (by
+      intro r hr
+      simp only [List.mem_singleton] at hr
+      subst hr
+      exact ⟨plainRow_arffRowOk vs hne h, by simp⟩) ALR.init (Or.inl rfl)
+    simp only [List.map_cons, List.map_nil, arffLines] at hAL
+    cases hstep : arffLineStep vs.length ALR.init (arffWriteRow SQ (fun _ => false) pad (vs.map (fun v => (false, v)))) with
+    | error e => rw [hstep] at hAL; cases hAL
+    | ok p =>
+      obtain ⟨s1, r⟩ := p
+      rw [hstep] at hAL
+      simp only [Except.ok.injEq, List.cons.injEq, and_true] at hAL
+      have hfull := arffLineStep_full _ _ _ _ _ hstep
+      have htoF : toF ALR.init = ALRF.init := rfl
+      rw [htoF] at hfull
+      unfold plainRowLine
+      rw [hfull]
+      simp only [Except.map]
+      rw [hAL]
+      simp [List.map_map, Function.comp_def]
+  · intro s hs
+    unfold arffAdvanced
+    simp only [hs, plainRow_split pad vs hne h, if_true, Except.map]
+
+/-! ## H. CPython numerals: the enlarged functions are conservative -/
+
+theorem strip_eq (t : Text) : strip t = rstrip (lstrip t) := rfl
+
+theorem strip_idem (t : Text) : strip (strip t) = strip t := by
+  rw [strip_eq t]
+  obtain ⟨w, hX, _, hlast⟩ := rstrip_spec (lstrip t)
+  have hhead : ∀ c, (rstrip (lstrip t)).head? = some c → isPySpace c = false := by
+    intro c hc
+    cases hR : rstrip (lstrip t) with
+    | nil => rw [hR] at hc; simp at hc
+    | cons a r =>
+      rw [hR] at hc hX
+      simp at hc
+      subst hc
+      exact dropWhile_head_not isPySpace t a (r ++ w) (by unfold lstrip at hX; rw [hX]; rfl)
+  rw [strip_eq (rstrip (lstrip t))]
+  have : lstrip (rstrip (lstrip t)) = rstrip (lstrip t) := by
+    unfold lstrip
+    exact dropWhile_head_false isPySpace _ hhead
+  rw [this, rstrip_id _ hlast]
+
+theorem dropWhile_congr_mem {α} (p q : α → Bool) (l : List α) (h : ∀ c ∈ l, p c = q c) : l.dropWhile p = l.dropWhile q := by
+  induction l with
+  | nil => rfl
+  | cons a l ih =>
+    have ha := h a (by simp)
+    simp only [List.dropWhile, ha]
+    cases q a
+    · rfl
+    · exact ih (fun c hc => h c (by simp [hc]))
+
+theorem mem_dropWhile {α} (p : α → Bool) (l : List α) (c : α) (h : c ∈ l.dropWhile p) : c ∈ l := by
+  induction l with
+  | nil => simp at h
+  | cons a l ih =>
+    simp only [List.dropWhile] at h
+    cases hp : p a
+    · rw [hp] at h; exact h
+    · rw [hp] at h; exact List.mem_cons_of_mem _ (ih h)
+
+theorem stripNum_eq_strip (t : Text) (h : noFs t = true) : stripNum t = strip t := by
+  have hp : ∀ c ∈ t, isNumSpace c = isPySpace c := by
+    intro c hc
+    have := List.all_eq_true.mp h c hc
+    unfold isNumSpace
+    rw [this, Bool.and_true]
+  unfold stripNum strip
+  rw [dropWhile_congr_mem isNumSpace isPySpace t hp]
+  rw [dropWhile_congr_mem isNumSpace isPySpace (t.dropWhile isPySpace).reverse (by
+    intro c hc
+    exact hp c (mem_dropWhile _ _ _ (List.mem_reverse.mp hc)))]
+
+theorem dropUsGo_none (b : Bool) (t : Text) (h : ¬ US ∈ t) : dropUsGo b t = some t := by
+  induction t generalizing b with
+  | nil => rfl
+  | cons c t ih =>
+    have hc : c ≠ US := fun e => h (by simp [e])
+    simp only [dropUsGo, hc, if_false, ih _ (fun hm => h (List.mem_cons_of_mem _ hm)), Option.map_some]
+
+theorem parseInt_strip (t : Text) : parseInt (strip t) = parseInt t := by
+  unfold parseInt
+  rw [strip_idem]
+
+theorem isFloatLit_strip (t : Text) : isFloatLit (strip t) = isFloatLit t := by
+  unfold isFloatLit
+  rw [strip_idem]
+
+theorem numerals_conservative' (tok : Text) (hu : ¬ US ∈ tok) (hf : noFs tok = true) :
+    parseIntPy tok = parseInt tok ∧ isFloatLitPy tok = isFloatLit tok := by
+  have hu' : ¬ US ∈ strip tok := by
+    intro hm
+    apply hu
+    unfold strip at hm
+    exact mem_dropWhile _ _ _ (List.mem_reverse.mp (mem_dropWhile _ _ _ (List.mem_reverse.mp hm)))
+  unfold parseIntPy isFloatLitPy dropUs
+  rw [stripNum_eq_strip tok hf, dropUsGo_none false _ hu']
+  simp only [strip_idem, if_true, parseInt_strip, isFloatLit_strip, beq_self_eq_true, Bool.true_and, and_self]
+
 end Coba.C12
